@@ -225,6 +225,9 @@ Definition spec_copy_into (ς : sstate) (dt st : nat) : option sstate :=
   match sget ς dt, sget ς st with
   | Some d, Some s =>
     if negb (length (s_cells d) =? length (s_cells s))%nat then None
+    (* source and destination sharing cells (a view copied onto its own parent, ...): the outcome
+       depends on the order of the element moves; the property does not speak about it *)
+    else if existsb (fun c => existsb (Nat.eqb c) (s_cells s)) (s_cells d) then None
     else Some (mkSS (write_cells (s_vals ς) (s_cells d) (slogical ς s)) (s_tens ς))
   | _, _ => None
   end.
@@ -257,7 +260,11 @@ Definition spec_deliver_gen (keep_soft : bool) (add : V -> V -> V) (ς : sstate)
            (mode : Z) (r : nat) (fresh_cm : bool) : option (sstate * nat) :=
   if mode =? 0 then
     let '(ς1, cells) := s_alloc ς vs in
-    Some (s_add ς1 (mkSten rshape cells None 0 false fresh_cm))
+    (* the fresh result starts as a Clone of the first operand: if that one carries a pending lazy
+       transpose the result inherits a thunk, and what an undo on the RESULT restores is left open
+       (pending = 2 stands for "possibly several": UT is then unspecified) *)
+    let pend := match sget ς ta with Some a => if Nat.eqb (s_pending a) 0 then O else 2%nat | None => O end in
+    Some (s_add ς1 (mkSten rshape cells None pend false fresh_cm))
   else if mode =? 1 then
     match sget ς ta with
     | None => None
@@ -274,8 +281,11 @@ Definition spec_deliver_gen (keep_soft : bool) (add : V -> V -> V) (ς : sstate)
          are left to the Reshape rule and not specified here) *)
       if s_cm x && negb (shape_eq (s_shape x) rshape) then None else
       (* vectors (n), (n,1), (1,n) count as the same shape: such a destination keeps its own *)
+      (* a destination that keeps its own shape also keeps a pending lazy transpose *)
+      let keeps := list_eqb (s_shape x) rshape in
       let x' := mkSten (if keep_soft && shape_eq (s_shape x) rshape then s_shape x else rshape)
-                       (s_cells x) None 0 (s_view x) (s_cm x) in
+                       (s_cells x) (if keeps then s_undo x else None) (if keeps then s_pending x else O)
+                       (s_view x) (s_cm x) in
       let vals := if mode =? 2 then vs
                   else map (fun p => add (nth (fst p) (s_vals ς) vzero) (snd p)) (combine (s_cells x) vs) in
       Some (sset (mkSS (write_cells (s_vals ς) (s_cells x) vals) (s_tens ς)) r x', r)
